@@ -88,13 +88,15 @@ def _is_history(inp):
 
 
 def _viol(ctx, key, what, inp=None, observed=None, expected=None):
-    """ctx.violation + remember, per key, the smallest HISTORY that showed it (see settle)"""
+    """ctx.violation + remember, per key, the smallest and the first HISTORY that showed it (see settle)"""
     ctx.violation(key, what, inp=inp, observed=observed, expected=expected)
     if _is_history(inp):
         hist = ctx.__dict__.setdefault('_c19_hist', {})
-        old = hist.get(key)
-        if old is None or len(inp['steps']) < len(old['input']['steps']):
-            hist[key] = {'input': inp, 'what': what, 'observed': observed, 'expected': expected}
+        rec = {'input': inp, 'what': what, 'observed': observed, 'expected': expected,
+               'pos': ctx.__dict__.get('_c19_pos')}
+        old = hist.setdefault(key, {'first': rec, 'smallest': rec})
+        if len(inp['steps']) < len(old['smallest']['input']['steps']):
+            old['smallest'] = rec
 
 
 # =====================================================================================================
@@ -543,16 +545,20 @@ def misplaced_wrappers(v, ty, sv, path='v'):
             out += misplaced_wrappers(e, f, x, '%s[%d]' % (path, i))
     elif c == 'list' and code == 'a' and isinstance(sv, list) and len(sv) == len(v) \
             and (isinstance(ty[1], str) or ty[1][0] != '{'):
+        # elements that travel as variants each select their own type; otherwise the FIRST element stands for
+        # the whole list (first-element inference: what later elements of the same class hold is outside the claim)
         for i, (e, x) in enumerate(zip(v, sv)):
-            out += misplaced_wrappers(e, ty[1], x, '%s[%d]' % (path, i))
+            if i == 0 or ty[1] == 'v':
+                out += misplaced_wrappers(e, ty[1], x, '%s[%d]' % (path, i))
     elif c == 'dict' and code == 'a' and not isinstance(ty[1], str) and ty[1][0] == '{' and isinstance(sv, list) \
             and len(sv) == len(v):
         items = list(v.items())
         samekeys = all(type(k) is type(items[0][0]) for k, _ in items)      # keys of several classes: outside
-        for (k, e), pair in zip(items, sv):
+        for i, ((k, e), pair) in enumerate(zip(items, sv)):
             if samekeys:
                 out += misplaced_wrappers(k, ty[1][1], pair[0], '%s.key(%r)' % (path, k))
-            out += misplaced_wrappers(e, ty[1][2], pair[1], '%s[%r]' % (path, k))
+            if i == 0 or ty[1][2] == 'v':
+                out += misplaced_wrappers(e, ty[1][2], pair[1], '%s[%r]' % (path, k))
     return out
 
 
@@ -1024,10 +1030,11 @@ def check_first_oracle(ctx, sig, of, inp=None):
                   inp=inp or {'op': 'split', 'sig': sig}, observed=of, expected=exp_first)
 
 
-PATTERNS = {'fsf': ('first', 'split', 'first'), 'sfs': ('split', 'first', 'split')}
+PATTERNS = {'fsf': ('first', 'split', 'first'), 'sfs': ('split', 'first', 'split'),
+            'fs': ('first', 'split'), 'sf': ('split', 'first')}
 
 
-def run_split(ctx, marshal, stream, sigs, valid, pattern=None):
+def run_split(ctx, marshal, stream, sigs, valid, pattern=None, patterns=('fsf', 'sfs')):
     """Every signature: next() on a fresh generator (abandoned after one piece) and the full split, in the order
     `pattern` ('fsf' | 'sfs'; default: alternating) - a generator left half consumed must not change what the
     next one yields."""
@@ -1037,7 +1044,7 @@ def run_split(ctx, marshal, stream, sigs, valid, pattern=None):
         lines.append('first ' + vc.str_hex(s))
     out = ctx.model(lines)
     for i, s in enumerate(sigs):
-        pat = pattern or ('fsf', 'sfs')[i % 2]
+        pat = pattern or patterns[i % len(patterns)]
         inp = {'op': 'split', 'sig': s, 'pattern': pat}
         for k, what in enumerate(PATTERNS[pat]):
             if what == 'split':
@@ -1344,14 +1351,15 @@ class HB:
 
 # ---- split histories
 def fresh_types(rng, taken, n=None):
-    """>= 2 complete types whose concatenation (and every proper suffix of >= 2 characters) was not used before"""
+    """>= 2 complete types whose concatenation S was not used before, neither on its own nor as the tail of an
+    earlier one (the array branch of the splitter calls itself on tails)"""
     while True:
         k = n or rng.choice([2, 2, 3, 3, 4, 6])
         ts = [rand_type(rng, rng.choice([1, 1, 2, 4, 9])) for _ in range(k)]
         if len(''.join(ts)) < 5:
             ts.append(''.join(rng.choice(BASIC) for _ in range(5)))        # a run of leaves makes it unique
         S = ''.join(ts)
-        if len(S) <= 200 and _valid(S) and not any(S[i:] in taken for i in range(len(S) - 1)):
+        if len(S) <= 200 and _valid(S) and S not in taken:
             for i in range(len(S) - 1):
                 taken.add(S[i:])
             return parse_all(S)
@@ -1433,9 +1441,12 @@ CONTEXTS = [
 
 
 def ladder_histories(m, rng, per_family=None):
+    """every rotation of every family inside every context (per_family: the four containers without a token and
+    that many of the others, drawn per family)"""
     out = []
+    plain = [c for c in CONTEXTS if c[0] in ('bare', 'tuple1', 'list1', 'list2')]
     for fam, xs in ladder_families(m):
-        ctxs = CONTEXTS if per_family is None else rng.sample(CONTEXTS, per_family)
+        ctxs = CONTEXTS if per_family is None else plain + rng.sample([c for c in CONTEXTS if c not in plain], per_family)
         for cname, mk in ctxs:
             for r in range(len(xs)):
                 order = xs[r:] + xs[:r]
@@ -1667,13 +1678,16 @@ def run_histories(ctx, marshal, stream, hists):
     lines = list(dict.fromkeys(ln for h in hists for ln in history_lines(h)))
     out = ctx.model(lines)
     mget = dict(zip(lines, out)) if out is not None else {}
+    log = ctx.__dict__.setdefault('_c19_log', [])
     for h in hists:
         steps = h['steps']
         slots = {}
         ctx.stat('%s:shape=%s' % (stream, h['shape']))
+        log.append(steps)
         for k, st in enumerate(steps):
             do = st['do']
             inp = {'op': 'history', 'steps': steps[:k + 1]}
+            ctx.__dict__['_c19_pos'] = (len(log) - 1, k)
             if do == 'new':
                 slots[st['slot']] = None              # the old value is dropped before the new one is built
                 slots[st['slot']] = vc.from_line(st['value'])
@@ -1777,19 +1791,50 @@ def _reproduces(ctx, inp, key):
 
 def settle(ctx):
     """ctx.violation keeps the SMALLEST input per key, and a single case is smaller than a history.  A defect that
-    needs an earlier operation does not show when the single case is replayed in a fresh process: for every key
-    that was also seen inside a history, try the single-case exemplar in a fresh process and fall back to the
-    smallest history (steps 0..k) when it does not reproduce."""
+    needs an earlier operation does not show when that input is replayed in a fresh process.  For every key that
+    was seen inside a history: try the exemplar in a fresh process; when it does not reproduce fall back to the
+    smallest history that showed it (steps 0..k), then to the first one, then to that one preceded by the histories
+    that ran before it in this process (a leak may cross histories; the latest sufficient start is found by
+    bisection) - the first candidate that reproduces in a fresh process becomes the replay input."""
     hist = getattr(ctx, '_c19_hist', {})
+    log = getattr(ctx, '_c19_log', [])
     for v in ctx.violations:
-        h = hist.get(v['key'])
-        if h is None or _is_history(v['input']):
+        rec = hist.get(v['key'])
+        if rec is None or _reproduces(ctx, v['input'], v['key']):
             continue
-        if not _reproduces(ctx, v['input'], v['key']):
-            v.update(input=h['input'], observed=h['observed'], expected=h['expected'],
-                     what=h['what'] + ' - at the last step of the stored history (the case alone, in a fresh '
-                                      'process, does not show it)')
-            ctx.stat('exemplar-replaced-by-history')
+        cands = [rec['smallest']]
+        if rec['first'] is not rec['smallest']:
+            cands.append(rec['first'])
+        pos = rec['first'].get('pos')
+
+        def combined(lo):
+            hi, k = pos
+            steps = [st for h in log[lo:hi] for st in h] + log[hi][:k + 1]
+            return dict(rec['first'], input={'op': 'history', 'steps': steps})
+        chosen = None
+        for c in cands:
+            if c['input'] is not v['input'] and _reproduces(ctx, c['input'], v['key']):
+                chosen = c
+                break
+        if chosen is None and pos and pos[0] > 0 and _reproduces(ctx, combined(0)['input'], v['key']):
+            lo, hi = 0, pos[0]              # the latest start from which the histories still lead to the failure
+            while hi - lo > 1:
+                mid = (lo + hi) // 2
+                if _reproduces(ctx, combined(mid)['input'], v['key']):
+                    lo = mid
+                else:
+                    hi = mid
+            chosen = combined(lo)
+            both = dict(rec['first'], input={'op': 'history', 'steps': log[lo] + log[pos[0]][:pos[1] + 1]})
+            if _reproduces(ctx, both['input'], v['key']):       # the history that starts it + the one that fails
+                chosen = both
+        if chosen is None:
+            ctx.stat('exemplar-not-reproducible-in-a-fresh-process')
+            continue
+        v.update(input=chosen['input'], observed=chosen['observed'], expected=chosen['expected'],
+                 what=chosen['what'] + ' - at the last step of the stored history (the case alone, in a fresh '
+                                       'process, does not show it)')
+        ctx.stat('exemplar-replaced-by-history')
 
 
 def run_case(ctx, marshal, case):
@@ -1841,7 +1886,7 @@ def run(ctx):
     run_histories(ctx, marshal, 'split-history', split_histories(rng, n))
     n = ctx.scale(quick=120, thorough=3000)
     run_histories(ctx, marshal, 'infer-history',
-                  ladder_histories(marshal, rng) + mutation_histories(marshal)
+                  ladder_histories(marshal, rng, None if thorough or ctx.widen else 4) + mutation_histories(marshal)
                   + [random_walk(rng, marshal) for _ in range(n)])
 
     for name, case in corpus:
@@ -1861,7 +1906,7 @@ def run(ctx):
     if ctx.widen and not thorough:
         seen = set(sigs)
         sigs += [s for s in enum_sigs(8, 'i', 'v') if s not in seen]
-    run_split(ctx, marshal, 'split-enumerated', sigs, True)
+    run_split(ctx, marshal, 'split-enumerated', sigs, True, patterns=('fs', 'sf'))
     ctx.exhaustive = True
     ctx.note('split-enumerated: %d signatures = every valid signature of length <= %d over leaves {i,s,v} and of '
              'length <= %d over all 14 leaf codes' % (len(sigs), nlen, 5 if thorough else 3))
